@@ -201,3 +201,88 @@ func cmdSchemaDraft(args []string) {
 	data, _ := json.MarshalIndent(out, "", " ")
 	fmt.Println(string(data))
 }
+
+// Decode-cannot-fail obligations (C13): a contract that tolerates "the error of decoding into type T" as a
+// cause of a 5xx rests on the side condition that encoding/xml cannot fail while filling T from well-formed
+// XML. That holds when every field reachable from T is character data without validation: string (or a named
+// string type without its own text/XML unmarshaler), xml.Name, *struct{} / struct{} markers, and slices,
+// pointers and structs of such. A number, a bool, or a type with UnmarshalText / UnmarshalXML / UnmarshalXMLAttr
+// makes the side condition false. Discharged by inspection of the types of /repo's current source.
+func checkNoFailDecode(P *Program, items []string) []*FuncResult {
+	var out []*FuncResult
+	for _, it := range items {
+		fr := &FuncResult{Key: "nofail-decode"}
+		out = append(out, fr)
+		o := &Obligation{Fn: "nofail-decode", Label: it, Kind: "schema", Goal: "encoding/xml cannot fail while decoding well-formed XML into " + it, Backend: "syntactic-inspection"}
+		fr.Obls = append(fr.Obls, o)
+		i := strings.LastIndex(it, ".")
+		var tp *types.Package
+		for _, p := range P.Pkgs {
+			if i > 0 && shortPkg(p.PkgPath) == it[:i] {
+				tp = p.Types
+			}
+		}
+		if tp == nil || tp.Scope().Lookup(it[i+1:]) == nil {
+			o.Result, o.Output = "sat", "type "+it+" not found"
+			continue
+		}
+		var bad []string
+		seen := map[string]bool{}
+		var walk func(t types.Type, path string)
+		hasUnmarshaler := func(t types.Type) string {
+			for _, tt := range []types.Type{t, types.NewPointer(t)} {
+				ms := types.NewMethodSet(tt)
+				for _, m := range []string{"UnmarshalText", "UnmarshalXML", "UnmarshalXMLAttr"} {
+					if ms.Lookup(nil, m) != nil || ms.Lookup(tp, m) != nil {
+						return m
+					}
+				}
+			}
+			return ""
+		}
+		walk = func(t types.Type, path string) {
+			if seen[path+"|"+t.String()] {
+				return
+			}
+			seen[path+"|"+t.String()] = true
+			if n, ok := t.(*types.Named); ok {
+				if n.Obj().Pkg() != nil && n.Obj().Pkg().Path() == "encoding/xml" && n.Obj().Name() == "Name" {
+					return
+				}
+				if m := hasUnmarshaler(t); m != "" {
+					bad = append(bad, fmt.Sprintf("%s: type %s has its own %s (may reject input)", path, t, m))
+					return
+				}
+			}
+			switch u := t.Underlying().(type) {
+			case *types.Basic:
+				if u.Info()&types.IsString == 0 {
+					bad = append(bad, fmt.Sprintf("%s: %s is parsed from text (may reject input)", path, t))
+				}
+			case *types.Pointer:
+				walk(u.Elem(), path)
+			case *types.Slice:
+				if b, ok := u.Elem().(*types.Basic); ok && b.Kind() == types.Byte {
+					return
+				}
+				walk(u.Elem(), path+"[]")
+			case *types.Struct:
+				for j := 0; j < u.NumFields(); j++ {
+					if parseXMLTag(u.Tag(j), u.Field(j).Name()).Kind == "ignored" {
+						continue
+					}
+					walk(u.Field(j).Type(), path+"."+u.Field(j).Name())
+				}
+			default:
+				bad = append(bad, fmt.Sprintf("%s: unsupported kind %s", path, t))
+			}
+		}
+		walk(tp.Scope().Lookup(it[i+1:]).Type(), it)
+		if len(bad) == 0 {
+			o.Result = "unsat"
+		} else {
+			o.Result, o.Output = "sat", strings.Join(bad, "; ")
+		}
+	}
+	return out
+}
